@@ -834,6 +834,10 @@ def gen_dup_labels(rng, nmax=10):
     return out if changed else None
 
 
+ULP_OFF = [(F(34, 100), F(56, 100), F(10, 100)), (F(7, 10), F(2, 10), F(1, 10)), (F(6, 10), F(3, 10), F(1, 10)),
+           (F(1, 22), F(6, 22), F(15, 22)), (F(1, 10), F(2, 10), F(7, 10))]
+
+
 def gen_mix(rng, nmax=10):
     """A random game put through a random subset of legal-but-unusual ways of writing it down (each was, at some point, the
     trigger of a seeded change): repeated action labels, identical parallel probabilistic edges, the empty action name, a branch
@@ -868,6 +872,15 @@ def gen_mix(rng, nmax=10):
             p, t = tl[s][i]
             tl[s][i:i + 1] = [(p / 2, t), (p / 2, t)]
         feats.append("parallel")
+    # a distribution that is exact as rationals but whose double sum misses 1.0 by an ulp
+    if rng.random() < 0.3:
+        cands = [s for s in range(n) if players[s] == PR and not g.absorbing(s) and len(tl[s]) == 3]
+        for s in rng.sample(cands, min(len(cands), 2)):
+            ps = list(rng.choice(ULP_OFF))
+            rng.shuffle(ps)
+            if abs(sum(float(p) for p in ps) - 1.0) > 0:
+                tl[s] = [(p, t) for p, (_, t) in zip(ps, tl[s])]
+        feats.append("ulpsum")
     # a branch listed with probability 0 (into any state)
     if rng.random() < 0.25:
         cands = [s for s in range(n) if players[s] == PR and not g.absorbing(s)]
